@@ -564,5 +564,10 @@ pub fn load_replay(path: &PathBuf) -> Value {
 /// Per-thread initialisation: sozu's thread-local logger prints every
 /// `error!` on stdout when uninitialised; an empty directive list mutes it.
 pub fn thread_init() {
-    sozu_command_lib::logging::LOGGER.with(|l| l.borrow_mut().set_directives(vec![]));
+    // VERIF_SOZU_LOG=error|warn|info|debug shows the subject's own log (debugging aid)
+    let dirs = match std::env::var("VERIF_SOZU_LOG") {
+        Ok(spec) => sozu_command_lib::logging::parse_logging_spec(&spec).0,
+        Err(_) => vec![],
+    };
+    sozu_command_lib::logging::LOGGER.with(|l| l.borrow_mut().set_directives(dirs));
 }
